@@ -324,7 +324,7 @@ HeaderFrom(items, h, ha, hb) ==
 \* [has, names, perr]: perr = star + alias without an input header is a parsing error
 HeaderRef ==
     IF q.kind = "update" THEN [has |-> hasHdr, names |-> HdrA, perr |-> FALSE]
-    ELSE IF q.hasexc THEN [has |-> hasHdr, names |-> Except(HdrA, q.exc), perr |-> FALSE]
+    ELSE IF q.hasexc THEN [has |-> hasHdr, names |-> (IF q.distinct = "count" THEN <<Col(1)>> ELSE <<>>) \o Except(HdrA, q.exc), perr |-> FALSE]      \* DISTINCT COUNT prefixes the count column here too
     ELSE IF ~hasHdr /\ HasStar(q.items) /\ HasAlias(q.items) THEN [has |-> FALSE, names |-> <<>>, perr |-> TRUE]
     ELSE IF ~hasHdr /\ ~HasAlias(q.items) THEN [has |-> FALSE, names |-> <<>>, perr |-> FALSE]
     ELSE [has |-> TRUE,
